@@ -34,7 +34,7 @@ def run(tier, corrupt=0):
     vlib.tlc_ok("Gen_Grammar", env={"OUT": cases}, heap="8g")
     ngen = len(lines)
     lines += dayeval_common.record_cases(c, cases, 3 if tier == "quick" else 1, days)
-    mix_path, _ = common.rule_mix_cases(c, 40 if tier == "quick" else 4)
+    mix_path, _ = common.rule_mix_cases(c, 120 if tier == "quick" else 12)
     lines += dayeval_common.record_cases(c, mix_path, 1, days)
     c.setv("generated_sentences_evaluated", len(lines) - ngen)
     # ids must be unique across the two recordings
